@@ -1,12 +1,16 @@
 #!/bin/bash
-# usage: tools_trypatch.sh <Cxx> <patch.diff>  -- applies a patch to /repo, runs the check into a scratch output dir, reverts
+# usage: tools_trypatch.sh <Cxx> <patch.diff>  -- applies a patch to a scratch worktree of /repo HEAD, runs the check against it
+# with evidence/replay output in a scratch directory, prints the verdict lines; /repo itself is not touched
 set -u
 P=$1; D=$2
-cd /repo || exit 2
-if ! git diff --quiet; then echo "repo dirty"; exit 2; fi
-git apply "$D" || { echo "apply failed"; exit 2; }
-OUT=$(mktemp -d /var/tmp/trypatch.XXXX)
-VERIF_OUT=$OUT /verif/check "$P" 2>&1 | grep -E "VIOLATION|KNOWN-FINDING|undecided|FAIL|error" | head -8
+export GOFLAGS=-mod=mod GOPROXY=off GOSUMDB=off GOTOOLCHAIN=local
+wt=/var/tmp/trypatch-wt-$$
+OUT=/var/tmp/trypatch-out-$$
+git -C /repo worktree add -q --detach "$wt" HEAD || exit 2
+trap 'git -C /repo worktree remove --force "$wt" >/dev/null 2>&1; [ -z "${KEEP_OUT:-}" ] && rm -rf "$OUT"' EXIT
+( cd "$wt" && git apply "$D" ) || { echo "apply failed"; exit 2; }
+mkdir -p "$OUT"
+VERIF_OUT=$OUT /verif/bin/vcgen check "$P" --repo="$wt" 2>&1 | grep -E "VIOLATION|failed:|undecided|FAIL|error|^OK" | head -${LINES_MAX:-8}
 echo "exit=${PIPESTATUS[0]}"
-git checkout -- . ; git clean -fdq -- . 2>/dev/null
-rm -rf "$OUT"
+[ -n "${KEEP_OUT:-}" ] && echo "out kept in $OUT"
+exit 0
